@@ -325,6 +325,16 @@ Proof.
     + intros o [<-|[]]. eexists; split; [reflexivity|]. now right.
 Qed.
 
+Lemma c_norm_nonneg g h i : (0 <= i)%Z -> c_norm g h i = inl i.
+Proof. intros H. unfold c_norm. destruct (Z.ltb_spec i 0); [lia|reflexivity]. Qed.
+
+Lemma getitem_norm g h i j : c_norm g h i = inl j -> (0 <= j)%Z -> c_getitem g h i = c_getitem g h j.
+Proof. intros H Hj. unfold c_getitem. now rewrite H, (c_norm_nonneg g h j Hj). Qed.
+Lemma setitem_norm g h i j v : c_norm g h i = inl j -> (0 <= j)%Z -> c_setitem g h i v = c_setitem g h j v.
+Proof. intros H Hj. unfold c_setitem. now rewrite H, (c_norm_nonneg g h j Hj). Qed.
+Lemma delitem_norm g h i j : c_norm g h i = inl j -> (0 <= j)%Z -> c_delitem g h i = c_delitem g h j.
+Proof. intros H Hj. unfold c_delitem. now rewrite H, (c_norm_nonneg g h j Hj). Qed.
+
 Lemma getitem_at g l1 c x l2 : NoDup g -> Rep g (l1 ++ (c, x) :: l2) ->
   big (l1 ++ (c, x) :: l2) -> headed (l1 ++ (c, x) :: l2) ->
   get_container g HEAD (Z.of_nat (length l1)) = Some c /\
@@ -334,9 +344,14 @@ Proof.
   assert (E : get_container g HEAD (Z.of_nat (length l1)) = Some c).
   { unfold get_container. rewrite Nat2Z.id. rewrite <- Hh by (destruct l1; discriminate).
     apply (container_prefix g l1 [] ((c, x) :: l2)); auto. }
-  split; auto. unfold c_getitem. rewrite E.
-  rewrite (big_truthy _ c Hb) by apply cell_mid.
-  now rewrite (value_only _ _ _ _ Hn (Rep_only_first _ _ _ _ _ HR)).
+  split; auto. unfold c_getitem. rewrite c_norm_nonneg by lia. rewrite E.
+  assert (Hc : N.eqb c NIL = false).
+  { apply N.eqb_neq. intros ->. destruct HR as [_ [HR2 _]]. apply HR2. apply cell_mid. }
+  pose proof (Rep_only_first _ _ _ _ _ HR) as Hf.
+  assert (Hh2 : g_has (Some c, Some FIRST, None) g = true).
+  { apply g_has_sp. exists x. apply Hf. }
+  rewrite Hc, Hh2. cbn [negb andb].
+  now rewrite (value_only _ _ _ _ Hn Hf).
 Qed.
 
 Lemma getitem_beyond g l k : NoDup g -> Rep g l -> headed l -> (length l < k)%nat ->
@@ -348,12 +363,32 @@ Proof.
   - rewrite <- Hh by discriminate. now apply container_beyond.
 Qed.
 
-Lemma index_chain g : NoDup g -> forall l2 l1 fuel v idx,
+(* every index >= len(c): IndexError (index == len(c) reaches rdf:nil, or the
+   triple-less head of an empty collection) *)
+Lemma getitem_out g l k : NoDup g -> Rep g l -> headed l -> (length l <= k)%nat ->
+  c_getitem g HEAD (Z.of_nat k) = RExc IndexError.
+Proof.
+  intros Hn HR Hh Hk. unfold c_getitem. rewrite c_norm_nonneg by lia.
+  destruct (Nat.eq_dec k (length l)) as [->|Hne].
+  2:{ rewrite (getitem_beyond g l k); auto. lia. }
+  unfold get_container. rewrite Nat2Z.id. destruct l as [|[c x] r].
+  - simpl.
+    assert (Hh2 : g_has (Some HEAD, Some FIRST, None) g = false).
+    { apply not_true_false. rewrite g_has_sp. intros [o H].
+      apply (Rep_no_subject _ _ HEAD FIRST o HR); auto. }
+    rewrite Hh2. reflexivity.
+  - rewrite <- Hh by discriminate.
+    generalize (container_prefix g ((c, x) :: r) [] [] Hn). rewrite !app_nil_r. simpl app.
+    intros E. rewrite (E HR). reflexivity.
+Qed.
+
+Lemma index_chain g : NoDup g -> forall l2 l1 fuel v idx seen,
   Rep g (l1 ++ l2) -> l2 <> [] -> (length l2 <= fuel)%nat ->
-  index_f fuel g (hd_cell l2 NIL) v idx =
+  (forall y, In y seen -> In y (cells l1) \/ y = hd_cell l2 NIL) ->
+  index_f fuel g (hd_cell l2 NIL) v idx seen =
   match index_of v (map snd l2) with Some k => RNat (idx + k) | None => RExc ValueError end.
 Proof.
-  intros Hn. induction l2 as [|[c x] r IH]; intros l1 fuel v idx HR Hne Hf; [congruence|].
+  intros Hn. induction l2 as [|[c x] r IH]; intros l1 fuel v idx seen HR Hne Hf Hs; [congruence|].
   destruct fuel as [|f]; [simpl in Hf; lia|].
   cbn [hd_cell index_f map snd index_of].
   pose proof (Rep_only_first _ _ _ _ _ HR) as [F1 F2].
@@ -369,12 +404,19 @@ Proof.
       { apply N.eqb_neq. intros ->. destruct HR as [_ [HR2 _]]. apply HR2.
         rewrite cells_app, in_app_iff. right. simpl. right. now left. }
       cbn [hd_cell]. rewrite Hc2.
-      assert (IH' := IH (l1 ++ [(c, x)]) f v (N.succ idx)).
+      destruct HR as [HR1 [HR2 HR3]].
+      destruct (next_fresh _ _ _ _ HR1 HR2) as [N1 N2]. cbn [hd_cell] in N1, N2.
+      assert (Hm : memb N.eqb c2 seen = false).
+      { apply (memb_false _ N.eqb_spec). intros Hin. destruct (Hs _ Hin) as [H|H]; auto. }
+      rewrite Hm.
+      assert (IH' := IH (l1 ++ [(c, x)]) f v (N.succ idx) (c2 :: seen)).
       cbn [hd_cell] in IH'. rewrite IH'.
       * destruct (index_of v (map snd ((c2, x2) :: r2))); auto. f_equal. lia.
-      * rewrite <- app_assoc. exact HR.
+      * rewrite <- app_assoc. split; [|split]; auto.
       * discriminate.
       * simpl in Hf. simpl. lia.
+      * intros y [<-|Hy]; [now right|]. left. rewrite cells_app, in_app_iff.
+        destruct (Hs _ Hy) as [H|H]; [now left|right; simpl; now left].
 Qed.
 
 (* ------------------------------------------------------------------ *)
@@ -508,6 +550,33 @@ Lemma Rep_del_middle g l1 p xp c x l2 :
 Proof.
   intros HR. destruct (Rep_del_cells _ _ _ _ _ _ _ HR) as [C1 C2]. split; [|split]; auto.
   intros t Ht. rewrite g_set_In, g_remove_s_In. apply (Rep_del_iff _ _ _ _ _ _ _ _ HR Ht).
+Qed.
+
+(* del c[0] on a longer list: the second cell's content moves into the head *)
+Lemma Rep_del_head g c x n xn l2 :
+  Rep g ((c, x) :: (n, xn) :: l2) ->
+  Rep (g_set c REST (hd_cell l2 NIL) (g_set c FIRST xn (g_remove (Some n, None, None) g)))
+      ((c, xn) :: l2).
+Proof.
+  intros [Hn [Hnil Hi]].
+  destruct (pair_parts [] c x n xn l2 Hn) as [_ [_ [P3 [P4 P5]]]].
+  simpl in Hn, Hnil. inversion Hn as [|? ? A1 A2]; subst. inversion A2 as [|? ? B1 B2]; subst.
+  split; [|split].
+  - simpl. constructor; auto.
+  - simpl. tauto.
+  - intros t Ht. rewrite !g_set_In, g_remove_s_In, (Hi t Ht). cbn [chainT hd_cell In].
+    assert (A : In t (chainT l2 NIL) -> subj t <> c /\ subj t <> n).
+    { intros H. split; eapply subj_not_in; eauto. }
+    split.
+    + intros [->|[[->|[[[H|[H|[H|[H|H]]]] Hs] Hne1]] Hne2]]; auto.
+      * subst t. exfalso. apply Hne1. split; reflexivity.
+      * subst t. exfalso. apply Hne2. split; reflexivity.
+      * subst t. exfalso. apply Hs. reflexivity.
+      * subst t. exfalso. apply Hs. reflexivity.
+    + intros [H|[H|H]].
+      * subst t. right. split; [now left|]. intros [_ E]. discriminate.
+      * subst t. now left.
+      * destruct (A H). right. split; [|tauto]. right. split; [|tauto]. split; auto 10.
 Qed.
 
 (* ---- append / += : the chain whose last cell has no rdf:rest yet ---- *)
@@ -741,15 +810,20 @@ Lemma remove_nth_mid (l1 : list (term * term)) c x l2 :
   remove_nth (length l1) (map snd (l1 ++ (c, x) :: l2)) = map snd (l1 ++ l2).
 Proof. induction l1 as [|a r IH]; simpl; auto. now rewrite IH. Qed.
 
-Lemma idx_cases n i : kf_idx n i = 0 ->
-  (exists k, (k < n)%nat /\ i = Z.of_nat k /\ norm_index n i = Some k) \/
-  (exists k, (n < k)%nat /\ i = Z.of_nat k /\ norm_index n i = None).
+Lemma norm_cases g n i : c_len g HEAD = RNat (N.of_nat n) ->
+  (exists k, (k < n)%nat /\ norm_index n i = Some k /\ c_norm g HEAD i = inl (Z.of_nat k)) \/
+  (norm_index n i = None /\
+   (c_norm g HEAD i = inr (RExc IndexError) \/
+    exists k, (n <= k)%nat /\ i = Z.of_nat k /\ c_norm g HEAD i = inl (Z.of_nat k))).
 Proof.
-  unfold kf_idx, norm_index. destruct (Z.ltb_spec i 0); [discriminate|].
-  destruct (Z.eqb_spec i (Z.of_nat n)); [discriminate|]. intros _.
-  destruct (Z.ltb_spec i (Z.of_nat n)).
-  - left. exists (Z.to_nat i). split; [lia|]. split; [lia|reflexivity].
-  - right. exists (Z.to_nat i). split; [lia|]. split; [lia|reflexivity].
+  intros Hl. unfold norm_index, c_norm. rewrite Hl, nat_N_Z. destruct (Z.ltb_spec i 0).
+  - destruct (Z.leb_spec (- Z.of_nat n) i).
+    + left. exists (Z.to_nat (Z.of_nat n + i)). split; [lia|]. split; auto.
+      destruct (Z.ltb_spec (i + Z.of_nat n) 0); [lia|]. f_equal. lia.
+    + right. split; auto. left. destruct (Z.ltb_spec (i + Z.of_nat n) 0); [auto|lia].
+  - destruct (Z.ltb_spec i (Z.of_nat n)).
+    + left. exists (Z.to_nat i). split; [lia|]. split; auto. f_equal. lia.
+    + right. split; auto. right. exists (Z.to_nat i). split; [lia|]. split; [lia|]. f_equal. lia.
 Qed.
 
 Lemma Inv_len s xs : Inv s xs ->
@@ -758,25 +832,35 @@ Proof.
   intros [Hn [l [<- [HR [Hh [Hb _]]]]]]. apply c_items_Rep; auto. eapply bounded_big; eauto.
 Qed.
 
+Lemma c_len_Inv s xs : Inv s xs -> c_len (gr s) HEAD = RNat (N.of_nat (length xs)).
+Proof. intros H. unfold c_len. now rewrite (Inv_len _ _ H). Qed.
+Lemma c_iter_Inv s xs : Inv s xs -> c_iter (gr s) HEAD = RList xs.
+Proof. intros H. unfold c_iter. now rewrite (Inv_len _ _ H). Qed.
+
 (* ---- reads ---- *)
-Lemma step_get s xs i : Inv s xs -> kf_idx (length xs) i = 0 ->
+Lemma step_get s xs i : Inv s xs ->
   c_getitem (gr s) HEAD i = snd (lstep xs (OGet i)).
 Proof.
-  intros [Hn [l [<- [HR [Hh [Hb _]]]]]] Hk. simpl. rewrite map_length in *.
-  destruct (idx_cases _ _ Hk) as [[k [Hlt [-> ->]]]|[k [Hlt [-> ->]]]].
-  - destruct (split_at l k Hlt) as [l1 [c [x [l2 [-> <-]]]]].
+  intros HI. pose proof (c_len_Inv _ _ HI) as Hlen.
+  destruct HI as [Hn [l [<- [HR [Hh [Hb _]]]]]]. simpl. rewrite map_length in *.
+  destruct (norm_cases _ _ i Hlen) as [[k [Hlt [-> Ec]]]|[-> [Ec|[k [Hge [-> Ec]]]]]].
+  - rewrite (getitem_norm _ _ _ _ Ec) by lia.
+    destruct (split_at l k Hlt) as [l1 [c [x [l2 [-> <-]]]]].
     rewrite nth_mid. apply (getitem_at _ _ _ _ _ Hn HR (bounded_big _ _ Hb) Hh).
-  - unfold c_getitem. now rewrite (getitem_beyond _ l k Hn HR Hh Hlt).
+  - unfold c_getitem. now rewrite Ec.
+  - now apply getitem_out with (l := l).
 Qed.
 
-Lemma step_set s xs i v : Inv s xs -> kf_idx (length xs) i = 0 ->
+Lemma step_set s xs i v : Inv s xs -> kf_op xs (OSet i v) = 0 ->
   Inv {| gr := fst (c_setitem (gr s) HEAD i v); fresh := fresh s |} (fst (lstep xs (OSet i v)))
   /\ snd (c_setitem (gr s) HEAD i v) = snd (lstep xs (OSet i v)).
 Proof.
-  intros [Hn [l [<- [HR [Hh [Hb Hf]]]]]] Hk. simpl. rewrite map_length in *.
-  destruct (idx_cases _ _ Hk) as [[k [Hlt [-> ->]]]|[k [Hlt [-> ->]]]].
-  - destruct (split_at l k Hlt) as [l1 [c [x [l2 [-> <-]]]]].
-    unfold c_setitem.
+  intros HI Hk. pose proof (c_len_Inv _ _ HI) as Hlen. pose proof HI as HI0.
+  destruct HI as [Hn [l [<- [HR [Hh [Hb Hf]]]]]]. cbn [kf_op] in Hk. simpl. rewrite map_length in *.
+  destruct (norm_cases _ _ i Hlen) as [[k [Hlt [-> Ec]]]|[-> [Ec|[k [Hge [-> Ec]]]]]].
+  - rewrite (setitem_norm _ _ _ _ v Ec) by lia.
+    destruct (split_at l k Hlt) as [l1 [c [x [l2 [-> <-]]]]].
+    unfold c_setitem. rewrite c_norm_nonneg by lia.
     destruct (getitem_at _ _ _ _ _ Hn HR (bounded_big _ _ Hb) Hh) as [E _]. rewrite E.
     rewrite (big_truthy _ c (bounded_big _ _ Hb)) by apply cell_mid.
     simpl. split; auto. split; [now apply g_set_NoDup|].
@@ -784,14 +868,11 @@ Proof.
     split; [auto|split; [now apply Rep_set with (x := x)|split; [|split; auto]]].
     + intros _. rewrite <- Hh by (destruct l1; discriminate). rewrite !hd_cell_app. reflexivity.
     + intros c'. rewrite cells_app. simpl. intros H. apply Hb. now rewrite cells_app.
-  - unfold c_setitem. rewrite (getitem_beyond _ l k Hn HR Hh Hlt). simpl. split; auto.
-    split; auto. exists l. auto.
+  - unfold c_setitem. rewrite Ec. simpl. split; auto.
+  - destruct (Z.eqb_spec (Z.of_nat k) (Z.of_nat (length l))); [discriminate|].
+    unfold c_setitem. rewrite Ec, (getitem_beyond _ l k Hn HR Hh) by lia. simpl. split; auto.
 Qed.
 
-Lemma c_len_Inv s xs : Inv s xs -> c_len (gr s) HEAD = RNat (N.of_nat (length xs)).
-Proof. intros H. unfold c_len. now rewrite (Inv_len _ _ H). Qed.
-Lemma c_iter_Inv s xs : Inv s xs -> c_iter (gr s) HEAD = RList xs.
-Proof. intros H. unfold c_iter. now rewrite (Inv_len _ _ H). Qed.
 
 Lemma headed_drop l1 p (xp : term) c (x : term) l2 :
   headed (l1 ++ (p, xp) :: (c, x) :: l2) -> headed (l1 ++ (p, xp) :: l2).
@@ -802,30 +883,45 @@ Lemma bounded_drop l1 p (xp : term) c (x : term) l2 f :
   bounded (l1 ++ (p, xp) :: (c, x) :: l2) f -> bounded (l1 ++ (p, xp) :: l2) f.
 Proof. intros H y Hy. apply H. now apply (proj2 (cells_drop l1 p xp c x l2)). Qed.
 
-Lemma step_del s xs i : Inv s xs -> kf_op xs (ODel i) = 0 ->
-  Inv {| gr := fst (c_delitem (gr s) HEAD i); fresh := fresh s |} (fst (lstep xs (ODel i)))
-  /\ snd (c_delitem (gr s) HEAD i) = snd (lstep xs (ODel i)).
+(* deletion at a normalised in-range key *)
+Lemma del_at s l1 c x l2 :
+  NoDup (gr s) -> Rep (gr s) (l1 ++ (c, x) :: l2) -> headed (l1 ++ (c, x) :: l2) ->
+  bounded (l1 ++ (c, x) :: l2) (fresh s) -> HEAD < fresh s ->
+  c_len (gr s) HEAD = RNat (N.of_nat (length (l1 ++ (c, x) :: l2))) ->
+  Inv {| gr := fst (c_delitem (gr s) HEAD (Z.of_nat (length l1))); fresh := fresh s |}
+      (map snd (l1 ++ l2))
+  /\ snd (c_delitem (gr s) HEAD (Z.of_nat (length l1))) = RNone.
 Proof.
-  intros HI Hk. pose proof (c_len_Inv _ _ HI) as Hlen.
-  destruct HI as [Hn [l [<- [HR [Hh [Hb Hf]]]]]].
-  cbn [kf_op] in Hk. cbn [lstep]. rewrite map_length in *.
-  destruct ((i =? 0)%Z && (2 <=? length l)%nat) eqn:Ht; [discriminate|].
-  destruct (idx_cases _ _ Hk) as [[k [Hlt [-> ->]]]|[k [Hlt [-> ->]]]].
-  2:{ unfold c_delitem, c_getitem. rewrite (getitem_beyond _ l k Hn HR Hh Hlt). simpl.
-      split; auto. split; auto. exists l. auto. }
-  destruct (split_at l k Hlt) as [l1 [c [x [l2 [-> <-]]]]].
+  intros Hn HR Hh Hb Hf Hlen.
   pose proof (bounded_big _ _ Hb) as Hbig.
   destruct (getitem_at _ _ _ _ _ Hn HR Hbig Hh) as [E1 E2].
-  unfold c_delitem. rewrite E2, E1, Hlen.
+  unfold c_delitem. rewrite c_norm_nonneg by lia. rewrite E2, E1, Hlen.
   rewrite (big_truthy _ c Hbig) by apply cell_mid. cbn [negb].
-  rewrite remove_nth_mid. cbn [fst snd].
   destruct l1 as [|[p xp] l1' _] using rev_ind.
-  - (* k = 0: only allowed on a one-element list *)
-    destruct l2 as [|a l2']; [|simpl in Ht; discriminate].
+  - (* key = 0 *)
     assert (c = HEAD) by (apply Hh; discriminate). subst c.
-    simpl. split; auto. split; [now apply g_remove_NoDup, g_set_NoDup|].
-    exists []. split; auto. split; [now apply Rep_del_only with (x := x)|].
-    split; [intros H; congruence|split; auto]. intros y [].
+    destruct l2 as [|[nx xn] l2'].
+    + (* the only element *)
+      simpl. split; auto. split; [now apply g_remove_NoDup, g_set_NoDup|].
+      exists []. split; auto. split; [now apply Rep_del_only with (x := x)|].
+      split; [intros H; congruence|split; auto]. intros y [].
+    + (* the head of a longer list *)
+      assert (Hn1 : N.eqb (N.of_nat (length ([] ++ (HEAD, x) :: (nx, xn) :: l2'))) 1 = false).
+      { apply N.eqb_neq. simpl. lia. }
+      assert (Et : (Z.of_nat (length (@nil (term * term))) =?
+                    Z.of_N (N.of_nat (length ([] ++ (HEAD, x) :: (nx, xn) :: l2'))) - 1)%Z = false).
+      { apply Z.eqb_neq. simpl length. lia. }
+      rewrite Hn1, Et. cbn [andb length Z.of_nat Z.eqb].
+      destruct (getitem_at (gr s) [(HEAD, x)] nx xn l2' Hn HR Hbig Hh) as [N1 _].
+      change (Z.of_nat (length [(HEAD, x)])) with 1%Z in N1. rewrite N1.
+      rewrite (value_only _ _ _ _ Hn (Rep_only_first _ [(HEAD, x)] _ _ _ HR)).
+      rewrite (value_only _ _ _ _ Hn (Rep_only_rest _ [(HEAD, x)] _ _ _ HR)).
+      cbn [fst snd app]. split; auto.
+      split; [now apply g_set_NoDup, g_set_NoDup, g_remove_NoDup|].
+      exists ((HEAD, xn) :: l2'). split; [reflexivity|].
+      split; [now apply Rep_del_head with (x := x)|].
+      split; [intros _; reflexivity|split; auto].
+      intros y Hy. apply Hb. simpl in Hy |- *. tauto.
   - (* there is a prior cell *)
     rewrite <- app_assoc in HR, Hb, Hh, Hbig. simpl app in HR, Hb, Hh, Hbig.
     assert (Ek : (Z.of_nat (length (l1' ++ [(p, xp)])) - 1 = Z.of_nat (length l1'))%Z)
@@ -846,7 +942,9 @@ Proof.
     + assert (Et : (Z.of_nat (length (l1' ++ [(p, xp)])) =?
                     Z.of_N (N.of_nat (length ((l1' ++ [(p, xp)]) ++ (c, x) :: (nx, xn) :: l2'))) - 1)%Z = false).
       { apply Z.eqb_neq. rewrite !app_length. simpl. lia. }
-      rewrite Et.
+      assert (Ez : (Z.of_nat (length (l1' ++ [(p, xp)])) =? 0)%Z = false).
+      { apply Z.eqb_neq. rewrite app_length. simpl. lia. }
+      rewrite Et, Ez.
       assert (HR' : Rep (gr s) ((l1' ++ [(p, xp); (c, x)]) ++ (nx, xn) :: l2'))
         by (rewrite <- app_assoc; exact HR).
       assert (Hb' : big ((l1' ++ [(p, xp); (c, x)]) ++ (nx, xn) :: l2'))
@@ -864,6 +962,20 @@ Proof.
       exists (l1' ++ (p, xp) :: (nx, xn) :: l2'). rewrite <- app_assoc. simpl app.
       split; auto. split; [apply (Rep_del_middle _ _ _ _ _ _ ((nx, xn) :: l2') HR)|].
       split; [eapply headed_drop; eauto|split; auto]. eapply bounded_drop; eauto.
+Qed.
+
+Lemma step_del s xs i : Inv s xs ->
+  Inv {| gr := fst (c_delitem (gr s) HEAD i); fresh := fresh s |} (fst (lstep xs (ODel i)))
+  /\ snd (c_delitem (gr s) HEAD i) = snd (lstep xs (ODel i)).
+Proof.
+  intros HI. pose proof (c_len_Inv _ _ HI) as Hlen. pose proof HI as HI0.
+  destruct HI as [Hn [l [<- [HR [Hh [Hb Hf]]]]]]. cbn [lstep]. rewrite map_length in *.
+  destruct (norm_cases _ _ i Hlen) as [[k [Hlt [-> Ec]]]|[-> [Ec|[k [Hge [-> Ec]]]]]].
+  - rewrite (delitem_norm _ _ _ _ Ec) by lia.
+    destruct (split_at l k Hlt) as [l1 [c [x [l2 [-> <-]]]]].
+    rewrite remove_nth_mid. cbn [fst snd]. now apply (del_at s l1 c x l2).
+  - unfold c_delitem. rewrite Ec. cbn [fst snd]. split; auto.
+  - unfold c_delitem. rewrite Ec. rewrite (getitem_out _ l k Hn HR Hh Hge). cbn [fst snd]. split; auto.
 Qed.
 
 (* ---- append, += ---- *)
@@ -913,19 +1025,36 @@ Proof.
     apply g_has_sp. exists x. apply (Rep_only_first _ _ _ _ _ HR).
 Qed.
 
-Lemma step_iadd s xs items : Inv s xs -> kf_op xs (OIadd items) = 0 ->
+Lemma Open_nil g e : Open g [] e ->
+  Rep g [] /\ g_has (Some e, Some FIRST, None) g = false.
+Proof.
+  intros [A [B [[_ Ho]|[l0 [x [E _]]]]]]; [|destruct l0; discriminate].
+  split.
+  - split; [auto|split; auto]. intros t Ht. simpl. split; [intros H; exact (Ho t Ht H)|tauto].
+  - apply not_true_false. rewrite g_has_sp. intros [o H]. exact (Ho (e, FIRST, o) eq_refl H).
+Qed.
+
+Lemma Open_cons_has g l e : Open g l e -> l <> [] -> g_has (Some e, Some FIRST, None) g = true.
+Proof.
+  intros Ho Hne. pose proof Ho as [_ [_ [[E _]|[l0 [x [E _]]]]]]; [congruence|].
+  subst l. now apply Open_has_first with (l0 := l0) (x := x).
+Qed.
+
+Lemma step_iadd s xs items : Inv s xs ->
   Inv (fst (c_iadd s HEAD items)) (xs ++ items) /\ snd (c_iadd s HEAD items) = RNone.
 Proof.
-  intros HI Hk. pose proof HI as [Hn _].
+  intros HI. pose proof HI as [Hn [_ [_ [_ [_ [_ Hf]]]]]].
   destruct (Inv_end _ _ HI) as [l [e [<- [E1 [E2 [Ho [Hb [He [Hh [Hem _]]]]]]]]]].
   unfold c_iadd. rewrite E1, E2.
   generalize (iadd_fold_spec items _ l e (fresh s) Ho (g_remove_NoDup _ _ Hn) Hb He Hh).
   destruct (fold_left iadd_step items _) as [[g1 e1] f1].
   intros [l' [B1 [B2 [B3 [B4 [B5 [B6 B7]]]]]]]. cbn [fst snd]. split; auto.
-  rewrite <- B7. apply close_Inv; auto.
-  - destruct HI as [_ [_ [_ [_ [_ [_ Hf]]]]]]. lia.
-  - intros ->. simpl in B7. symmetry in B7. apply app_eq_nil in B7. destruct B7 as [X1 X2].
-    apply map_eq_nil in X1. subst. simpl in Hk. discriminate.
+  rewrite <- B7. destruct l' as [|a l''].
+  - destruct (Open_nil _ _ B1) as [HR Hhas]. rewrite Hhas.
+    split; auto. exists []. cbn [gr fresh]. split; auto. split; auto.
+    split; [intros H; congruence|]. split; [intros y []|lia].
+  - rewrite (Open_cons_has _ _ _ B1) by discriminate.
+    apply close_Inv; auto; [lia|discriminate].
 Qed.
 
 Lemma step_append s xs v : Inv s xs ->
@@ -976,10 +1105,11 @@ Proof.
     rewrite Hhas. rewrite objects_none; [reflexivity|].
     intros o. apply (Rep_no_subject _ _ HEAD REST o HR); auto.
   - rewrite <- Hh by discriminate.
-    rewrite (index_chain _ Hn ((c, x) :: r) [] (fuel_of (gr s)) v 0); auto.
+    rewrite (index_chain _ Hn ((c, x) :: r) [] (fuel_of (gr s)) v 0 [hd_cell ((c, x) :: r) NIL]); auto.
     + destruct (index_of v (map snd ((c, x) :: r))); apply res_ok_refl.
     + discriminate.
     + apply Rep_length in HR. unfold fuel_of. lia.
+    + intros y [<-|[]]. now right.
 Qed.
 
 Lemma step_contains s xs v : Inv s xs ->
@@ -1082,11 +1212,9 @@ Proof.
   rewrite <- (map_seq_nth _ xs 0) at 2. rewrite map_map. apply map_ext_in.
   intros k Hk. apply in_seq in Hk.
   rewrite (step_get s xs (Z.of_nat k) HI).
-  - simpl. unfold norm_index.
-    destruct (Z.ltb_spec (Z.of_nat k) 0); [lia|].
-    destruct (Z.ltb_spec (Z.of_nat k) (Z.of_nat (length xs))); [|lia]. now rewrite Nat2Z.id.
-  - unfold kf_idx. destruct (Z.ltb_spec (Z.of_nat k) 0); [lia|].
-    destruct (Z.eqb_spec (Z.of_nat k) (Z.of_nat (length xs))); [lia|reflexivity].
+  simpl. unfold norm_index.
+  destruct (Z.ltb_spec (Z.of_nat k) 0); [lia|].
+  destruct (Z.ltb_spec (Z.of_nat k) (Z.of_nat (length xs))); [|lia]. now rewrite Nat2Z.id.
 Qed.
 
 Lemma snap_Inv s xs r : Inv s xs -> snap_ok HEAD xs (snap_of HEAD s r) = true.
@@ -1106,13 +1234,13 @@ Lemma step_ok s xs o : Inv s xs -> kf_op xs o = 0 ->
   res_ok o (snd (lstep xs o)) (snd (c_step HEAD s o)) = true.
 Proof.
   intros HI Hk. destruct o; cbn [c_step].
-  - cbn [kf_op] in Hk. rewrite (step_get _ _ _ HI Hk). split; [exact HI|apply res_ok_refl].
-  - cbn [kf_op] in Hk. destruct (step_set _ _ i v HI Hk) as [A B].
+  - rewrite (step_get _ _ _ HI). split; [exact HI|apply res_ok_refl].
+  - destruct (step_set _ _ i v HI Hk) as [A B].
     unfold with_g. cbn [fst snd]. rewrite B. split; [exact A|apply res_ok_refl].
-  - destruct (step_del _ _ i HI Hk) as [A B].
+  - destruct (step_del _ _ i HI) as [A B].
     unfold with_g. cbn [fst snd]. rewrite B. split; [exact A|apply res_ok_refl].
   - destruct (step_append _ _ v HI) as [A B]. rewrite B. split; [exact A|reflexivity].
-  - destruct (step_iadd _ _ vs HI Hk) as [A B]. rewrite B. split; [exact A|reflexivity].
+  - destruct (step_iadd _ _ vs HI) as [A B]. rewrite B. split; [exact A|reflexivity].
   - destruct (step_clear _ _ HI) as [A B].
     unfold with_g. cbn [fst snd]. rewrite B. split; [exact A|reflexivity].
   - cbn [fst snd lstep]. rewrite (c_len_Inv _ _ HI). split; [exact HI|apply res_ok_refl].
@@ -1236,18 +1364,22 @@ Proof.
   intros [Hn [l [<- [HR [Hh _]]]]]. apply wf_check_sound. now apply wf_check_Rep.
 Qed.
 
-Lemma index_error s xs i : Inv s xs -> (Z.of_nat (length xs) < i)%Z ->
+Lemma index_error s xs i : Inv s xs -> norm_index (length xs) i = None ->
   c_getitem (gr s) HEAD i = RExc IndexError /\
-  (forall v, c_setitem (gr s) HEAD i v = (gr s, RExc IndexError)) /\
-  c_delitem (gr s) HEAD i = (gr s, RExc IndexError).
+  c_delitem (gr s) HEAD i = (gr s, RExc IndexError) /\
+  (i <> Z.of_nat (length xs) -> forall v, c_setitem (gr s) HEAD i v = (gr s, RExc IndexError)).
 Proof.
-  intros [Hn [l [<- [HR [Hh _]]]]] Hi. rewrite map_length in Hi.
-  assert (E : get_container (gr s) HEAD i = None).
-  { replace i with (Z.of_nat (Z.to_nat i)) by lia. apply (getitem_beyond _ l); auto. lia. }
-  unfold c_delitem, c_setitem, c_getitem. rewrite E. auto.
+  intros HI Hnone. pose proof (c_len_Inv _ _ HI) as Hlen.
+  destruct HI as [Hn [l [<- [HR [Hh _]]]]]. rewrite map_length in *.
+  destruct (norm_cases _ _ i Hlen) as [[k [Hlt [E _]]]|[_ [Ec|[k [Hge [-> Ec]]]]]]; [congruence| |].
+  - unfold c_getitem, c_delitem, c_setitem. rewrite Ec. auto.
+  - pose proof (getitem_out _ l k Hn HR Hh Hge) as Hg.
+    split; [exact Hg|]. split.
+    + unfold c_delitem. rewrite Ec, Hg. reflexivity.
+    + intros Hne v. unfold c_setitem. rewrite Ec, (getitem_beyond _ l k Hn HR Hh) by lia. reflexivity.
 Qed.
 
-(* every operation outside the trigger regions, Prop-level *)
+(* every operation outside the one trigger region (c[len] = v), Prop-level *)
 Lemma refines_step s xs o : Inv s xs -> kf_op xs o = 0 ->
   let '(s', r) := c_step HEAD s o in
   let '(xs', e) := lstep xs o in
